@@ -295,6 +295,11 @@ class Sym:
             if inner is not None:
                 return inner
             return Poly.sym("len(%s)" % self.name(arg))
+        if k == "call" and short(t[1]) == "<impl str>::len":
+            r = self.ev.region(t[2][0])
+            if r is not None:
+                ln = r.length if r.length is not None else (r.end()[0] - r.start[0], r.end()[1] - r.start[1])
+                return Poly({("L",): ln[0], (): ln[1]})
         if k == "call" and short(t[1]) in ("Vec::<T, A>::len", "<impl str>::len"):
             inner = self.seq_len(t[2][0])
             if inner is not None:
